@@ -361,6 +361,8 @@ pub struct NodeSpec {
     pub user_outbound_layer: bool,
     /// ... which holds every request back for this long before forwarding it (a throttle)
     pub user_outbound_delay: Duration,
+    /// ... and adds a header `x-added` with a value of this many bytes (0 = none) to every request
+    pub user_outbound_adds_header: usize,
     /// let the harness switch on settings that must not change any behaviour the scenario looks
     /// at (huge default timeouts, a huge connection limit, an alternate network name, a
     /// pass-through outbound layer, a tiny mailbox, ...): correctness must not silently depend on
@@ -393,6 +395,7 @@ impl World {
             jitter: Duration::from_millis(0),
             user_outbound_layer: false,
             user_outbound_delay: Duration::ZERO,
+            user_outbound_adds_header: 0,
             vary_benign: true,
         }
     }
@@ -472,7 +475,12 @@ impl World {
         if spec.user_outbound_layer {
             type Inner = tower::util::BoxService<Request<Bytes>, Response<Bytes>, anemo::Error>;
             let delay = spec.user_outbound_delay;
+            let add = spec.user_outbound_adds_header;
             b = b.outbound_request_layer(tower::layer::layer_fn(move |inner: Inner| -> Inner {
+                if add > 0 {
+                    use tower::ServiceExt;
+                    return tower::util::BoxService::new(inner.map_request(move |req: Request<Bytes>| req.with_header("x-added", "a".repeat(add))));
+                }
                 if delay.is_zero() {
                     inner
                 } else {
